@@ -19,10 +19,11 @@ type vxC10CmdCase struct {
 	Window      int  `json:"window"`
 	GetPwmFails bool `json:"getPwmFails"` // getPwm exits 1 from the second cycle on
 	GetPwmNoise bool `json:"getPwmNoise"` // getPwm prints "na" from the second cycle on
+	Decimals    bool `json:"decimals"`    // getRpm prints the reading with a decimal point ("1500.0"), as sensors -u or awk do
 }
 
 func (c vxC10CmdCase) String() string {
-	return fmt.Sprintf("cmd fan theta=%d r0=%d window=%d getPwmFails=%v getPwmNoise=%v", c.Theta, c.R0, c.Window, c.GetPwmFails, c.GetPwmNoise)
+	return fmt.Sprintf("cmd fan theta=%d r0=%d window=%d getPwmFails=%v getPwmNoise=%v rpmWithDecimals=%v", c.Theta, c.R0, c.Window, c.GetPwmFails, c.GetPwmNoise, c.Decimals)
 }
 
 func vxC10RunCmd(c vxC10CmdCase) (raises int, firstRaise int, outcome string, fail [2]string) {
@@ -43,7 +44,11 @@ func vxC10RunCmd(c vxC10CmdCase) (raises int, firstRaise int, outcome string, fa
 	phase := w("phase", "spinning", 0644)
 	set := w("set.sh", fmt.Sprintf("#!/bin/sh\nprintf %%s \"$1\" > %s\n", pwm), 0755)
 	get := w("get.sh", fmt.Sprintf("#!/bin/sh\ncase \"$(cat %s)\" in fail) exit 1;; noise) echo na; exit 0;; esac\ncat %s\n", mode, pwm), 0755)
-	rpm := w("rpm.sh", fmt.Sprintf("#!/bin/sh\nif [ \"$(cat %s)\" = spinning ]; then echo %d; exit 0; fi\nif [ \"$(cat %s)\" -ge %d ]; then echo 1500; else echo 0; fi\n", phase, c.R0, pwm, c.Theta), 0755)
+	dec := ""
+	if c.Decimals {
+		dec = ".0"
+	}
+	rpm := w("rpm.sh", fmt.Sprintf("#!/bin/sh\nif [ \"$(cat %s)\" = spinning ]; then echo %d%s; exit 0; fi\nif [ \"$(cat %s)\" -ge %d ]; then echo 1500%s; else echo 0%s; fi\n", phase, c.R0, dec, pwm, c.Theta, dec, dec), 0755)
 	configuration.CurrentConfig = configuration.Configuration{RpmRollingWindowSize: c.Window, TempRollingWindowSize: 997,
 		RpmPollingRate: time.Second, ControllerAdjustmentTickRate: 200 * time.Millisecond}
 	cv := &vxCurve{id: "vxcurve-cmd", Value: 0}
@@ -111,6 +116,19 @@ func vxC10RunCmd(c vxC10CmdCase) (raises int, firstRaise int, outcome string, fa
 		var dev int
 		fmt.Sscanf(string(b), "%d", &dev)
 		if dev >= c.Theta {
+			// the fan turns again (its command reports 1500 RPM from now on): fan2go must stop pushing it
+			at := ctl.stats.IncreasedMinPwmCount
+			for k := 0; k < 40; k++ {
+				if p := step(); p != "" {
+					return raises, firstRaise, "", [2]string{"C10 panic in control cycle", p}
+				}
+				if cycErr != nil {
+					return raises, firstRaise, "", [2]string{"C10 control error while the fan was spinning", fmt.Sprintf("%v (cmd fan reporting 1500 RPM at device pwm %d, %d polls after it started to turn)", cycErr, dev, k+1)}
+				}
+			}
+			if more := ctl.stats.IncreasedMinPwmCount - at; more > 0 {
+				return raises, firstRaise, "", [2]string{"C10 spinning cmd fan is pushed further", fmt.Sprintf("the fan's command reports 1500 RPM since device pwm %d, yet the minimum was raised %d more times in the next 40 polls (request now %d, rpm average %g)", dev, more, vxLast(ctl), fan.GetRpmAvg())}
+			}
 			return raises, firstRaise, "spinning", fail
 		}
 		if polls-lastRaisePoll > bound {
